@@ -56,6 +56,9 @@ func (u *Unit) merge(base *State, sts []*State) *State {
 	if len(sts) == 1 {
 		return sts[0]
 	}
+	if c := u.root().contract; c != nil && c.Flags["nomerge"] != "" && u.root().inlining == 0 {
+		return nil // `flag nomerge`: keep the paths of this function apart (ite terms in index arithmetic defeat the triggers)
+	}
 	n0 := len(base.pc)
 	for _, s := range sts {
 		if len(s.pc) < n0 || len(s.defers) != len(sts[0].defers) {
@@ -220,7 +223,11 @@ func (u *Unit) execBlock(sts []*State, stmts []ast.Stmt) flow {
 		}
 		cur = next
 		u.root().paths += len(cur)
-		if len(cur) > 160 || u.root().paths > maxPaths*50 {
+		lim := 160
+		if c := u.root().contract; c != nil && c.Flags["nomerge"] != "" {
+			lim = 2000
+		}
+		if len(cur) > lim || u.root().paths > maxPaths*50 {
 			u.reject("path explosion (%d live states)", len(cur))
 			cur = cur[:1]
 		}
